@@ -277,4 +277,36 @@ p("c09-p-pipeline-locals", "C09", CFGF,
   "            new_cfg = self.remove_useless_symbols() \\\n                .remove_epsilon() \\\n                .remove_useless_symbols() \\\n                .eliminate_unit_productions() \\\n                .remove_useless_symbols()",
   "            step1 = self.remove_useless_symbols()\n            step2 = step1.remove_epsilon()\n            step3 = step2.remove_useless_symbols()\n            step4 = step3.eliminate_unit_productions()\n            new_cfg = step4.remove_useless_symbols()")
 
+# ----------------------------------------------------------------------------- C10
+b("c10-substitute-keeps-head", "C10", CFGF,
+  "                productions.append(\n                    Production(new_variables_d_local[production.head],\n                               body))",
+  "                productions.append(\n                    Production(production.head,\n                               body))", "heads-renamed")
+b("c10-substitute-no-body-rename", "C10", CFGF,
+  "                for cfgobj in production.body:\n                    if cfgobj in new_variables_d_local:\n                        body.append(new_variables_d_local[cfgobj])\n                    else:\n                        body.append(cfgobj)",
+  "                for cfgobj in production.body:\n                    body.append(cfgobj)", "unrenamed-only-if-not-a-variable")
+b("c10-substitute-counter-reset", "C10", CFGF,
+  "        for ter, cfg in substitution.items():\n            new_variables_d_local = {}",
+  "        for ter, cfg in substitution.items():\n            idx = 0\n            new_variables_d_local = {}",
+  "counter-shared-across-operands")
+b("c10-union-drops-other", "C10", CFGF,
+  "        return cfg_temp.substitute({temp_0: self,\n                                    temp_1: other})\n\n    def __or__",
+  "        return cfg_temp.substitute({temp_0: self,\n                                    temp_1: self})\n\n    def __or__",
+  "operands-substituted")
+b("c10-concat-swapped", "C10", CFGF,
+  "        return cfg_temp.substitute({temp_0: self,\n                                    temp_1: other})\n\n    def __add__",
+  "        return cfg_temp.substitute({temp_0: other,\n                                    temp_1: self})\n\n    def __add__",
+  "concatenation-order")
+b("c10-reverse-not-reversed", "C10", CFGF,
+  "                                          production.body[::-1]))", "                                          production.body[::1]))",
+  "bodies-reversed")
+b("c10-or-is-concat", "C10", CFGF,
+  "        return self.union(other)\n\n    def concatenate", "        return self.concatenate(other)\n\n    def concatenate",
+  "delegates-to:union")
+b("c10-template-returned-raw", "C10", CFGF,
+  "        return cfg_temp.substitute({temp_1: self})\n\n    def get_positive_closure",
+  "        cfg_temp.substitute({temp_1: self})\n        return cfg_temp\n\n    def get_positive_closure", "template-escapes")
+p("c10-p-substitute-rename", "C10", CFGF,
+  "        for ter, cfg in substitution.items():\n            new_variables_d_local = {}\n            for variable in cfg.variables:",
+  "        for ter, cfg in substitution.items():\n            new_variables_d_local = dict()\n            for variable in cfg.variables:")
+
 VARIANTS = V
